@@ -8,6 +8,7 @@ package main
 
 import (
 	"bytes"
+	"errors"
 	"flag"
 	"fmt"
 	"hash/fnv"
@@ -115,6 +116,13 @@ func hash(b []byte) uint64 { h := fnv.New64a(); h.Write(b); return h.Sum64() }
 
 func (w *recW) Write(p []byte) (int, error) {
 	in := w.in
+	if in.p.writer == "consolefail" && !in.failedOnce {
+		// the first line to arrive is rejected (an error after half of it): that event is lost, every other
+		// event must arrive exactly as its chain renders it alone
+		in.failedOnce = true
+		in.mon = in.mon*1099511628211 ^ 99
+		return len(p) / 2, errors.New("destination failed")
+	}
 	if w.active > 0 {
 		in.overlap = true
 	}
@@ -137,13 +145,14 @@ func (w *recW) Write(p []byte) (int, error) {
 }
 
 type inst struct {
-	p        params
-	calls    []string
-	overlap  bool
-	mutated  []string
-	done     []bool
-	mon      uint64
-	expected []string
+	p          params
+	calls      []string
+	overlap    bool
+	failedOnce bool
+	mutated    []string
+	done       []bool
+	mon        uint64
+	expected   []string
 }
 
 var expCache = map[string][]string{}
@@ -180,7 +189,7 @@ func buildLoggers(p params, w io.Writer) (lgs []zerolog.Logger, derive func(i in
 		dst = zerolog.SyncWriter(w)
 	case "synclevel": // the wrapped destination is a LevelWriter: events reach it through WriteLevel
 		dst = zerolog.SyncWriter(levelW{w})
-	case "console":
+	case "console", "consolefail": // (consolefail: the destination rejects the first line it is handed - see recW)
 		dst = zerolog.ConsoleWriter{Out: w, NoColor: true, PartsExclude: []string{"time"}}
 	}
 	root := zerolog.New(dst)
@@ -223,7 +232,7 @@ func expectedWrites(p params, name string) []string {
 	var all []string
 	for t, kinds := range p.threads {
 		for i, k := range kinds {
-			in := &inst{p: p}
+			in := &inst{p: p, failedOnce: true} // (alone = with a destination that accepts everything)
 			w := &recW{in: in}
 			lgs, derive := buildLoggers(p, w)
 			if p.logger == "derived" {
@@ -313,6 +322,23 @@ func (in *inst) Check(res *mcrt.Result) []explore.Violation {
 	got := append([]string{}, in.calls...)
 	sort.Strings(got)
 	want := in.expected
+	if in.p.writer == "consolefail" {
+		// exactly one event (the one that met the failing write) is missing; the rest must be among the expected lines
+		if len(got) != len(want)-1 {
+			add("%d lines reached the destination, want %d (all events but the rejected one)", len(got), len(want)-1)
+			return vs
+		}
+		rest := append([]string{}, want...)
+		for _, g := range got {
+			k := sort.SearchStrings(rest, g)
+			if k >= len(rest) || rest[k] != g {
+				add("after one rejected write an event differs from what its call chain produces alone: got %.160q", g)
+				return vs
+			}
+			rest = append(rest[:k], rest[k+1:]...)
+		}
+		return vs
+	}
 	if len(got) != len(want) {
 		add("%d Write calls for %d events", len(got), len(want))
 		return vs
@@ -379,6 +405,8 @@ func plans(tier string) []drv.Plan {
 	add("children/synclevel/tiny,tiny;nested", b2)
 	add("shared/console/tiny,nested;tiny", b2)
 	add("children/console/big;tiny", b3)
+	add("shared/consolefail/tiny,tiny;tiny", b2)
+	add("children/consolefail/tiny;nested", b2)
 	add("shared/plain/huge;tiny,tiny", 1)
 	if tier == "thorough" {
 		add("shared/plain/tiny;nested;big", 5)
